@@ -21,7 +21,7 @@ META = {
             "model (same outcome, same content), every spelling to load to its zone, the real writer not to refuse any lossless style, and the real re-read of its output to give the "
             "original zone (content and TTLs) with Zone == true. Conformance of the writer's text to the writer "
             "specification (lexed back to abstract lines) is validated too, but only counted as drift in evidence.",
-    "note": "Exhaustive inside the MC/Gen constants (4 owner names + $GENERATE names, 14 types incl. DNSKEY, KEY and RRSIGs covering A/DNSKEY/CNAME/NSEC, 1-7 rdatas per type, TTLs "
+    "note": "Exhaustive inside the MC/Gen constants (4 owner names + $GENERATE names, 16 types incl. DNSKEY, KEY, RRSIGs covering A/DNSKEY/CNAME/NSEC and legacy SIGs covering A/MX, 1-7 rdatas per type, TTLs "
             "{0,5,300,600}, curated zones of 3-5 records + all single-record zones, 384 semantic style vectors x relativized/"
             "absolute; pairwise-exhaustive over all 11 knobs in quick, full 6144-vector product in thorough); random zones of "
             "up to 5 records and deep spellings are seeded TLC simulations. Layout-only knobs (justification, chunking, "
@@ -36,8 +36,8 @@ BASE = """CONSTANTS
   ZO <- UZO
   LabelRank <- URank
   SpOrigins <- UOrigins
-  SpTTLs = {{300, 5, 0}}
-  SpNoise <- UNoise
+  SpTTLs = {spttls}
+  SpNoise <- {noise}
   SpGenerates <- UGenerates
   SpMaxExtra = {maxextra}
   SpForms <- {forms}
@@ -71,7 +71,7 @@ def tset(xs):
 
 
 def gen_cfg(ctx, name, **kw):
-    d = dict(maxextra=0, forms="FullForms", kinds=tset(["spell"]), zones="GZCur", buildmax=0, styles="PairwiseStyles",
+    d = dict(spttls="{300, 5, 0}", noise="UNoise", maxextra=0, forms="FullForms", kinds=tset(["spell"]), zones="GZCur", buildmax=0, styles="PairwiseStyles",
              og=tset([True]), maxdev=1, lines="RLinesSmall", depth=2, profiles="PFull",
              empties=tset(["none"]))
     d.update(kw)
@@ -79,7 +79,7 @@ def gen_cfg(ctx, name, **kw):
 
 
 def mc_cfg(ctx, name, **kw):
-    d = dict(maxextra=0, forms="McForms", zones="ZonesQuick", styles="SemStyles", modes=tset(["write"]),
+    d = dict(spttls="{300, 5, 0}", noise="UNoise", maxextra=0, forms="McForms", zones="ZonesQuick", styles="SemStyles", modes=tset(["write"]),
              og=tset([True, False]), invs=INVS)
     d.update(kw)
     return ctx.cfg(name, MC_CFG.format(**d))
@@ -233,6 +233,10 @@ def run(ctx):
             # S4: the zones the nibble / multi-$ $GENERATE lines expand to: $GENERATE versus its expansion
             "s4": lambda: ctx.generate("Gen_ZoneFile", gen_cfg(ctx, "s4.cfg", zones="GZGen", maxextra=0 if quick else 1, maxdev=1,
                                                               profiles="PInherit")),
+            # S5: two directive lines that are $ORIGIN (absolute / relative to the current origin) or blank,
+            #     anywhere around records spelled with every inheritance form
+            "s5": lambda: ctx.generate("Gen_ZoneFile", gen_cfg(ctx, "s5.cfg", zones="GZOrigins", maxextra=2, maxdev=9,
+                                                              profiles="PInherit", spttls="{}", noise="UNoNoise")),
             "r1": lambda: ctx.generate("Gen_ZoneFile", gen_cfg(ctx, "r1.cfg", kinds=tset(["read"]), lines="RLinesMid" if quick else "RLinesFull", depth=2)),
             "r2": lambda: ctx.generate("Gen_ZoneFile", gen_cfg(ctx, "r2.cfg", kinds=tset(["read"]), lines="RLinesSmall" if quick else "RLinesTiny",
                                                               depth=3 if quick else 4)),
@@ -258,7 +262,7 @@ def run(ctx):
         with cf.ThreadPoolExecutor(max_workers=len(tasks)) as ex:
             futs = {k: ex.submit(f) for k, f in tasks.items()}
             res = {k: f.result() for k, f in futs.items()}
-        spell = res["s1"] + res["s2"] + res["s3"] + res["s4"]
+        spell = res["s1"] + res["s2"] + res["s3"] + res["s4"] + res["s5"]
         read = res["r1"] + res["r2"] + res["r3"] + res["r4"]
         write = res["w1"] + res["w2"] + res["w3"] + res["w4"]
         write = [b for b in write if b["kind"] == "write"]
@@ -270,6 +274,8 @@ def run(ctx):
             "$GENERATE nibble bases and several $ per side": any(
                 l["k"] == "gen" and any(it[0] == "mod" and it[3] in ("n", "N") for it in l["lhs"]["items"]) for l in alll) and any(
                 l["k"] == "gen" and sum(1 for it in l["lhs"]["items"] if it[0] == "mod") > 1 for l in alll),
+            "relative $ORIGIN after another $ORIGIN": any(
+                [l["name"][0] for l in b["lines"] if l["k"] == "origin"][1:2] == ["rel"] for b in spell),
             "inherited owner and TTL": any(l["k"] == "rr" and l["owner"] == ["blank"] and l["ttl"] == ["none"] for l in alll),
             "$ORIGIN-relative names": any(l["k"] == "rr" and any(n[0] in ("rel", "at") for n in l["names"]) for l in alll),
             "class before TTL": any(l["k"] == "rr" and l["ord"] == "ct" for l in alll),
